@@ -93,7 +93,7 @@ def main(tier=None, replay=None):
             wrec.judge(ck, [build(mt)], [mt], (PID,))
         return ck.finish('replay')
     kernel.run(ck, rnd, (PID,))
-    recs, metas = make(ck, rnd, ck.pick(130, 1300))
+    recs, metas = make(ck, rnd, ck.pick(200, 1300))
     wrec.judge(ck, recs, metas, (PID,))
     ck.count('records-poldep', sum(1 for m in metas if m['poldep']))
     ck.count('records-polindep', sum(1 for m in metas if not m['poldep']))
